@@ -63,7 +63,11 @@ where
                     body.push(entry);
                 }
                 Err(mut err) => {
-                    self.skip_to_next_entry_start();
+                    self.skip_to_next_entry_start(entry_start);
+                    if self.ptr < err.pos.start {
+                        // The position of the error must be inside of the Junk.
+                        err.pos = self.ptr..self.ptr + 1;
+                    }
                     err.slice = Some(entry_start..self.ptr);
                     errors.push(err);
                     let content = self.source.slice(entry_start..self.ptr);
